@@ -14,7 +14,7 @@ func init() {
 		Decides: "(R05.1) every access of the ballotbox's record map builds its key as the stage point string with the same literal prefix set at writer, reader and remover sites (a remover using another prefix never releases suffrage-confirm records); " +
 			"(R05.2) records are returned to the pool only by the cleanup cycle, only records of the previous cycle's removed list, every record put on the removed list is removed from the map in the same cycle, and the unfinished-record scan skips removed records; " +
 			"(R05.3) every mutating/counting method of a record first tests that the record is not a recycled (zero stage point) one, and every field of a pooled record is re-initialised on the put side or the get side; " +
-			"(R05.4) a record's vote maps are touched only through the method's own receiver, and the public per-point queries look the record up with their own point argument.",
+			"(R05.4) a record's vote maps are touched only through the method's own receiver, and the public per-point queries look the record up with their own point argument.; (R05.3r) a released vote record is never re-issued for another stage point (nothing is handed back to voterecordsPool; the re-initialisation rules R05.3p apply only if it is)",
 		NotDecided: "the tally itself (C01/C04); races between cleanup and concurrent voters beyond the record lock.",
 		Run:        runC05,
 	})
@@ -147,9 +147,26 @@ func runC05(c *Ctx) {
 		ts := append(c.CallsD(fn, "vr.copyVoted(*)"), c.CallsD(fn, "vr.newStuckVoteproof(*)")...)
 		c.MP(fn, "stuck voteproof: not a recycled record", ts, 2, notRecycled)
 	}
+	c.Rule("R05.3r", "Ownership")
+	// released records may still be held by MissingNodes, StuckVoteproof, vote() and its deferred
+	// voteproof check; nothing tracks those holders, so a released record must never be re-issued
+	var puts []ssa.Instruction
+	for _, f := range c.FuncsWithPrefix("isaac/states.") {
+		puts = append(puts, c.CallsD(f, "isaacstates.voterecordsPool.Put(*)")...)
+	}
+	recycles := len(puts) > 0
+	if put != nil {
+		c.Report(put, "released vote records are not re-issued while other goroutines may still hold them", put.Pos(), !recycles,
+			fmt.Sprintf("%d hand-back(s) to voterecordsPool; holders of a released record are not tracked", len(puts)))
+	}
 	c.Rule("R05.3p", "FieldCoverage")
 	nv := c.Need("isaac/states.newVoterecords")
-	if put != nil && nv != nil {
+	if nv != nil && !recycles {
+		c.StoredIs(nv, "new record takes the requested stage point", c.StoresD(nv, "&isaacstates.voterecordsPool.Get().sp"), 1, "stagepoint")
+		c.StoredIs(nv, "new record takes the suffrage-confirm flag", c.StoresD(nv, "&isaacstates.voterecordsPool.Get().isc"), 1, "isSuffrageConfirm")
+		c.StoredIs(nv, "new record is unfinished", c.StoresD(nv, "&isaacstates.voterecordsPool.Get().vp"), 1, "nil")
+	}
+	if put != nil && nv != nil && recycles {
 		stored := c.FieldsStoredIn("voterecords", put, nv)
 		// maps cleared in place on the put side count as reset
 		for _, in := range allInstrs(put) {
